@@ -964,3 +964,6 @@ TECHNIQUE = 'Lean 4 proof (arithmetic, induction over the store) + model/code co
 from harness import composerdiv as _cdv                 # noqa: E402
 from harness.mixins import add_family as _add_family    # noqa: E402
 _add_family(globals(), _cdv, 'composerdiv', _cdv.oracle, share=0.03)
+# daughters starting from one shared dictionary value, one of them merging into a nested entry afterwards
+from harness import mergediv as _md                     # noqa: E402
+_add_family(globals(), _md, 'mergediv', _md.oracle, share=0.02)
